@@ -149,6 +149,9 @@ def job_guard(job):
 def run(prop, tier, seed):
     chk = Check(prop, tier, seed)
     rng = random.Random(seed)
+    res = tlc.run_mc("MC_guard.cfg", "MC_guard.tla", workers=8, timeout=1800)
+    chk.add_mc(res, "adds, add_node, clear, clear_edges, freeze and the blocked mutators interleaved: every reachable state well formed "
+                    "(InvC01-C08, InvNodes), FrozenImmutable (a frozen graph changes only through the pinned add family, KF5)")
     jobs = []
     nst = 0
     for cfg in (["MC_core_tiny.cfg"] if tier == "quick" else ["MC_core_small.cfg", "MC_core_loops.cfg", "MC_core_3n.cfg"]):
